@@ -684,12 +684,18 @@ class Gen:
         n = rng.randint(2, 5)
         grid = [k / 4 + 1 / 8 for k in range(-9, 9)] if rng.random() < .5 else [k / 4 for k in range(-8, 9)]     # nodes between or ON the data grid
         xp = sorted(set(rng.choice(grid) for _ in range(n)))
+        force_right = False
+        if rng.random() < .35:
+            # make the LAST node coincide with an actual value of x: NumPy returns fp[-1] there, `right` only beyond it
+            xv = float(numpy.asarray(rng.choice(v.vals)).ravel()[0]) if numpy.asarray(v.vals[0]).size else None
+            if xv is not None and abs(xv) < 100:
+                xp = sorted({xv - d for d in rng.sample([.25, .5, 1., 1.5, 2.25], rng.randint(1, 3))} | {xv}); force_right = True
         if len(xp) < 2: return None
         fp = [rng.choice([k / 4 for k in range(-8, 9)]) for _ in xp]
         P = {'xp': xp, 'fp': fp}
         kw = {}
         if rng.random() < .3 and v.all(lambda x: x != xp[0]): kw['left'] = rng.choice([-1., 5.])
-        if rng.random() < .3: kw['right'] = rng.choice([-2., 7.])
+        if force_right or rng.random() < .3: kw['right'] = rng.choice([-2., 7.])
         if kw: P['kw'] = kw
         return self.apply('interp', P, [v])
 
